@@ -8,7 +8,7 @@ R-MTV       on success the returned vector is normal * dot(new_point, normal) of
 """
 import ast
 
-from ..core.astutil import u, call_name, calls, iter_stmts, index_elts, const, compare_triples, parent_map, is_neg_of, ncmp, dot_args
+from ..core.astutil import u, call_name, calls, iter_stmts, index_elts, const, compare_triples, parent_map, is_neg_of, ncmp, dot_args, guard_chain, resolved
 from ..core.index import AnalysisError
 
 EPA = "distance3d.epa"
@@ -25,6 +25,8 @@ def _face_store(st):
     if len(el) == 1:
         return (u(el[0]), "whole")
     k = el[1]
+    if isinstance(k, ast.List) and k.elts and all(const(e) in (0, 1, 2) for e in k.elts):
+        return (u(el[0]), "vertex2")
     if isinstance(k, ast.Slice):
         hi = const(k.upper) if k.upper is not None else 4
         lo = const(k.lower) if k.lower is not None else 0
@@ -44,41 +46,61 @@ def r_winding(idx, rep, rule="R-WINDING"):
                    "before it becomes selectable; the repair flips exactly when dot(vertex0, normal) < 0, by a real swap of "
                    "two vertices and negation of the normal", floor=5)
     ci = idx.cls(EPA + "::Polytope")
-    # discover the two helper methods by shape
+    # discover the two helper methods by what they do: the normal method stores only row 3 and takes a cross product; the repair method
+    # negates row 3 (X = -X) and writes vertex rows
     normal_m, repair_m = None, None
     for name, m in ci.methods.items():
         sts = [(_face_store(st), st) for st in iter_stmts(m.node.body)]
         kinds = [k[1] for k, st in sts if k]
         if kinds == ["normal"] and calls(m.node, "cross"):
             normal_m = m
-        ifs = [st for st in m.node.body if isinstance(st, ast.If)]
-        if len(ifs) == 1 and sorted(kinds) == ["normal", "vertex", "vertex"]:
+        if "normal" in kinds and any(k_ in ("vertex", "vertex2") for k_ in kinds) and not calls(m.node, "cross") and m.name != "__init__" \
+                and all(k and k[0] in [p_ for p_ in m.params() if p_ != "self"] for k, st in sts if k):
             repair_m = m
     if normal_m is None or repair_m is None:
         raise AnalysisError("Polytope: normal computation or winding repair method not found")
-    # --- the repair itself
+    # --- the repair itself: under which condition does it act?  (an enclosing `if c:` and a guard clause `if not c: return` are the same)
     rk = repair_m.key
-    iff = [st for st in repair_m.node.body if isinstance(st, ast.If)][0]
     fidx = [p for p in repair_m.params() if p != "self"][0]
-    t = iff.test
+    pm_r = parent_map(repair_m.node)
+    neg_st = [st for st in iter_stmts(repair_m.node.body) if _face_store(st) and _face_store(st)[1] == "normal"][0]
+    atoms = guard_chain(pm_r, neg_st, repair_m.node)
     ok = False
-    if ncmp(t) is not None:
-        op, a, b = ncmp(t)
-        dots = [dot_args(n) for n in ast.walk(a) if dot_args(n) is not None]
-        dot_ok = any({u(x).replace(" ", "") for x in d} == {"self.faces[%s,0]" % fidx, "self.faces[%s,3]" % fidx} for d in dots)
-        ok = dot_ok and op == "<" and const(b) in (0, 0.0)
+    t = None
+    if len(atoms) == 1 and atoms[0][1] is True:
+        t = resolved(repair_m.node, atoms[0][0])
+        if ncmp(t) is not None:
+            op, a, b = ncmp(t)
+            dots = [dot_args(n) for n in ast.walk(a) if dot_args(n) is not None]
+            dot_ok = any({u(x).replace(" ", "") for x in d} == {"self.faces[%s,0]" % fidx, "self.faces[%s,3]" % fidx} for d in dots)
+            ok = dot_ok and op == "<" and const(b) in (0, 0.0)
     rep.check(ok, rule, rk + "|flip iff dot(v0, n) < 0", repair_m.where,
-              "the repair condition `%s` is not `dot(faces[i,0], faces[i,3]) (+bias) < 0`" % u(t))
-    stores = [(_face_store(st), st) for st in iter_stmts(iff.body) if _face_store(st)]
+              "the repair acts under `%s`, which is not `dot(faces[i,0], faces[i,3]) (+bias) < 0`" % (u(t) if t is not None else [("" if p_ else "not ") + u(x) for x, p_ in atoms]))
+    body_r = [st for st in iter_stmts(repair_m.node.body)]
+    stores = [(_face_store(st), st) for st in body_r if _face_store(st)]
     vs = [(k, st) for k, st in stores if k[1] == "vertex"]
+    v2 = [(k, st) for k, st in stores if k[1] == "vertex2"]
     ns = [(k, st) for k, st in stores if k[1] == "normal"]
     # swap: two vertex rows exchange; the saved temporary must be a copy
     sw_ok = False
     why = "the repair does not exchange two vertex rows"
+    if len(v2) == 1 and not vs:
+        # A[i, [a, b]] = A[i, [b, a]]: the fancy-indexed right-hand side is a copy, so this is a real exchange
+        st = v2[0][1]
+        rows_t = [const(e) for e in index_elts(st.targets[0])[1].elts]
+        val = st.value
+        if isinstance(val, ast.Subscript) and u(val.value) == "self.faces" and len(index_elts(val)) == 2 and isinstance(index_elts(val)[1], ast.List) \
+                and u(index_elts(val)[0]) == u(index_elts(st.targets[0])[0]):
+            rows_v = [const(e) for e in index_elts(val)[1].elts]
+            sw_ok = len(rows_t) == 2 and rows_v == rows_t[::-1] and rows_t[0] != rows_t[1] and set(rows_t) <= {0, 1, 2}
+        if not sw_ok:
+            why = "`%s` is not an exchange of two vertex rows" % u(st)[:70]
     if len(vs) == 2:
         (k1, s1), (k2, s2) = vs
         r1, r2 = u(s1.targets[0]), u(s2.targets[0])
-        tmp = [st for st in iter_stmts(iff.body) if isinstance(st, ast.Assign) and isinstance(st.targets[0], ast.Name)]
+        tmp = [st for st in body_r if isinstance(st, ast.Assign) and isinstance(st.targets[0], ast.Name) and st.lineno < s1.lineno
+               and (u(st.value) == r1 or (isinstance(st.value, ast.Call) and st.value.args and u(st.value.args[0]) == r1) or
+                    (isinstance(st.value, ast.Call) and isinstance(st.value.func, ast.Attribute) and u(st.value.func.value) == r1))]
         if tmp and u(s1.value) == r2 and u(s2.value) == tmp[0].targets[0].id:
             tv = tmp[0].value
             src = tv
@@ -103,7 +125,7 @@ def r_winding(idx, rep, rule="R-WINDING"):
     ok = isinstance(v, ast.Call) and (call_name(v) or "").split(".")[-1] == "norm_vector" and v.args and isinstance(v.args[0], ast.Call) \
         and (call_name(v.args[0]) or "").endswith("cross")
     if ok:
-        a, b = v.args[0].args
+        a, b = (resolved(normal_m.node, x) for x in v.args[0].args)
         f = lambda k: "self.faces[%s, %d]" % (nidx, k)
         ok = u(a) == "%s - %s" % (f(1), f(0)) and u(b) == "%s - %s" % (f(2), f(0))
     rep.check(ok, rule, nk + "|n = unit((v1 - v0) x (v2 - v0))", normal_m.where,
@@ -206,11 +228,16 @@ def r_mtv(idx, rep, rule="R-MTV"):
             and all(isinstance(x, ast.Name) and x.id in loc and not isinstance(loc[x.id], tuple) and "support_function" in u(loc[x.id]) for x in (v.left, v.right))]
     if not newp:
         raise AnalysisError("epa: new Minkowski point not found")
+    def res(e, depth=0):
+        while isinstance(e, ast.Name) and e.id in loc and not isinstance(loc[e.id], tuple) and depth < 4 and u(e) not in normal_txts:
+            e, depth = loc[e.id], depth + 1
+        return e
     mtv = r.value.elts[0]
-    mv = loc.get(u(mtv), mtv) if isinstance(mtv, ast.Name) else mtv
+    mv = res(mtv)
     ok = False
     if isinstance(mv, ast.BinOp) and isinstance(mv.op, ast.Mult):
         for n_, d_ in ((mv.left, mv.right), (mv.right, mv.left)):
+            d_ = res(d_)
             if u(n_) in normal_txts and dot_args(d_) is not None:
                 a = {u(x) for x in dot_args(d_)}
                 ok = newp[0] in a and bool(a & normal_txts)
@@ -221,8 +248,9 @@ def r_mtv(idx, rep, rule="R-MTV"):
     ok = False
     if ncmp(t) is not None:
         op, a, b = ncmp(t)
-        if op == "<" and isinstance(a, ast.BinOp) and isinstance(a.op, ast.Sub) and u(a.right) == mind[0] and dot_args(a.left) is not None \
-                and {u(x) for x in dot_args(a.left)} & normal_txts and newp[0] in {u(x) for x in dot_args(a.left)} and u(b) in f.params():
+        al = res(a.left) if isinstance(a, ast.BinOp) else None
+        if op == "<" and isinstance(a, ast.BinOp) and isinstance(a.op, ast.Sub) and u(a.right) == mind[0] and dot_args(al) is not None \
+                and {u(x) for x in dot_args(al)} & normal_txts and newp[0] in {u(x) for x in dot_args(al)} and u(b) in f.params():
             ok = True
     rep.check(ok, rule, f.key + "|convergence test", "%s:%d" % (f.module.relpath, guard.lineno if guard else 0),
               "convergence test `%s` is not `dot(new_point, n) - min_dist < epsilon`" % gtxt)
